@@ -33,6 +33,7 @@ func main() {
 	dump := flag.String("dump", "", "debug: dump SSA of rel/pkg:Func")
 	overlay := flag.String("overlay", "", "file=replacement: analyse with the file's content replaced (mutation self-test)")
 	mutantRun := flag.Bool("mutantrun", false, "internal: evaluate one mutant and print a JSON summary")
+	infer := flag.String("inferguards", "", "discovery: comma-separated rel packages; print guarded-by statistics per struct field")
 	warm := flag.Bool("warm", false, "load the repository once (builds export data into the go build cache) and exit")
 	flag.Parse()
 	if *warm {
@@ -59,6 +60,20 @@ func main() {
 	}
 	if *explain != "" {
 		os.Exit(doExplain(*repo, *explain))
+	}
+	if *infer != "" {
+		w, err := kit.Load(*repo, *goos, *goarch, true)
+		if err != nil {
+			fmt.Fprintln(os.Stderr, "load failed:", err)
+			os.Exit(2)
+		}
+		for _, g := range w.InferGuards(strings.Split(*infer, ",")) {
+			fmt.Printf("%s.%s.%s guarded by %s: %d/%d held, %d writes\n", g.Pkg, g.Struct, g.Field, g.Mutex, g.Held, g.Total, g.Writes)
+			for _, u := range g.Unheld {
+				fmt.Printf("    unheld: %s\n", u)
+			}
+		}
+		os.Exit(0)
 	}
 	if *overlay != "" {
 		parts := strings.SplitN(*overlay, "=", 2)
